@@ -93,6 +93,14 @@ var e2eBackend struct {
 	body     []byte
 	status   int
 	respBody []byte
+	log      []e2eSeen // every forwarded request, in arrival order at the backend
+}
+
+type e2eSeen struct {
+	path string
+	ja3  []string
+	ja4  []string
+	xff  []string
 }
 
 // the backend
@@ -102,6 +110,7 @@ func e2eRoundTrip(t *http.Transport, r *http.Request) (*http.Response, error) {
 	e2eBackend.n++
 	e2eBackend.method, e2eBackend.url, e2eBackend.host = r.Method, r.URL.String(), r.Host
 	e2eBackend.header = r.Header.Clone()
+	e2eBackend.log = append(e2eBackend.log, e2eSeen{path: r.URL.Path, ja3: r.Header["X-Ja3-Fingerprint"], ja4: r.Header["X-Ja4-Fingerprint"], xff: r.Header["X-Forwarded-For"]})
 	if r.Body != nil {
 		e2eBackend.body, _ = io.ReadAll(r.Body)
 	}
